@@ -64,11 +64,15 @@ impl VarFile {
     //
     #[inline]
     pub fn sync_all(&mut self) -> Result<()> {
+        #[cfg(abyssiniandb_verif)]
+        verif_io_trace::push(self.buf_file.name(), "sync_all");
         self.buf_file.sync_all()
     }
     //
     #[inline]
     pub fn sync_data(&mut self) -> Result<()> {
+        #[cfg(abyssiniandb_verif)]
+        verif_io_trace::push(self.buf_file.name(), "sync_data");
         self.buf_file.sync_data()
     }
     //
@@ -216,6 +220,8 @@ impl Write for VarFile {
     }
     #[inline]
     fn flush(&mut self) -> Result<()> {
+        #[cfg(abyssiniandb_verif)]
+        verif_io_trace::push(self.buf_file.name(), "flush");
         self.buf_file.flush()
     }
 }
@@ -907,6 +913,21 @@ impl VarFile {
         */
         self.seek_from_start(offset + PieceSize::<T>::new(4))?;
         self.seek_position()
+    }
+}
+
+/// verification hook (io-trace): log of the flush/sync calls that reached a file buffer.
+#[cfg(abyssiniandb_verif)]
+pub(crate) mod verif_io_trace {
+    use std::cell::RefCell;
+    thread_local! {
+        static LOG: RefCell<Vec<(String, &'static str)>> = RefCell::new(Vec::new());
+    }
+    pub(crate) fn push(name: String, op: &'static str) {
+        LOG.with(|l| l.borrow_mut().push((name, op)));
+    }
+    pub(crate) fn take() -> Vec<(String, &'static str)> {
+        LOG.with(|l| std::mem::take(&mut *l.borrow_mut()))
     }
 }
 
